@@ -92,7 +92,10 @@ def sparsify(b, rng):
             lo, hi = r(f - 1) + 1, r(f)
             o["from"] = rng.randint(lo, hi)
         ops.append(o)
-    return dict(kind=b["kind"], ops=ops)
+    out = dict(kind=b["kind"], ops=ops)
+    if rng.random() < 0.08:
+        out["noise"] = 3       # other syncers of the same process append to their own trees meanwhile
+    return out
 
 
 def count_ops(behs):
